@@ -361,7 +361,7 @@ func (g *gen) envSourced(kind string, def any) any {
 		if !ok || g.r.Intn(3) != 0 {
 			return def
 		}
-		if g.r.Intn(2) == 0 {
+		if g.r.Intn(2) == 0 || !g.clean { // the mapping form is canonicalised into a list: outside the model's fragment
 			l := []any{}
 			for _, v := range vars {
 				if g.r.Intn(2) == 0 {
@@ -613,7 +613,9 @@ func tagList(t map[string]bool) []string { return c06lib.SortedKeys(t) }
 
 // randomApply builds one ApplyInclude call on a random tree.
 func randomApply(ctx *core.Ctx, depth int) c06lib.ApplyArgs {
-	g := &gen{r: ctx.Rng, s: c06lib.NewScen(), names: map[string]int{}, tags: map[string]bool{}}
+	// envRes: the sub-load is loadYamlModel's included branch — services and secrets `environment` are resolved by it
+	// with the include's environment (model: `resolveModelEnv true`), configs are not
+	g := &gen{r: ctx.Rng, s: c06lib.NewScen(), names: map[string]int{}, tags: map[string]bool{}, envRes: true}
 	shape := ctx.Rng.Intn(4)
 	mainFile, projDir := "compose.yaml", ""
 	if shape >= 2 {
